@@ -37,8 +37,8 @@ def model_and_replay(ctx, stride=1, max_frames=2, max_blocks=2):
                                          "programs_replayed": rj["programs"], "frames_compressed": rj["frames"], "mismatches": rj["mismatches"],
                                          "observed_decisions": rj["observed_decisions"],
                                          "dev_F5_selftest": "BeliefSound violated after %d states with the pre-repair ordering" % r5.distinct}
-    for m in rj["first"]:
-        ctx.violation("compressor program %s frame %d: %s" % (json.dumps(m["program"])[:300], m["frame_index"], "; ".join(m["errors"])), m, tag="enc")
+    _drift_note(ctx, rj, "graph programs")
+    _report(ctx, rj, "enc", 300)
     ctx.add_samples(rj["samples"][:1], 1)
     # ---- trace validation of the recorded decisions ----
     tcfg = ctx.path("Trace_FrameCompressor.cfg")
@@ -62,6 +62,31 @@ def model_and_replay(ctx, stride=1, max_frames=2, max_blocks=2):
             # concrete undecodable frame
             ctx.notes.append("encoder trace left the specification at event %d (%s): %s" % (at, info["invariant"] or "no enabled action", json.dumps(prefix[-2:])[:600]))
     return rj
+
+
+# which categories of frame defects each property speaks about (the shared pipeline finds all of them; a check reports its own)
+RELEVANT = {"C02": ("[dec]", "[panic]"), "C15": ("[wf]", "[bound]", "[dec]", "[panic]"), "C08": ("[cks]", "[panic]")}
+
+
+def _report(ctx, rj, tag, cut=None):
+    rel = RELEVANT.get(ctx.pid, ("[",))
+    for m in rj["first"]:
+        mine = [e for e in m["errors"] if e.startswith(rel)]
+        other = [e for e in m["errors"] if not e.startswith(rel)]
+        prog = json.dumps(m["program"])[:cut]
+        if mine:
+            ctx.violation("compressor program %s frame %d: %s" % (prog, m["frame_index"], "; ".join(mine)), m, tag=tag)
+        elif other:
+            ctx.notes.append("outside this property (see the check named by the category): program %s frame %d: %s" % (prog[:300], m["frame_index"], "; ".join(other)[:300]))
+
+
+def _drift_note(ctx, rj, what):
+    ctx.cov.setdefault("drifted_frames", {})[what] = rj.get("drifted_frames", 0)
+    if rj.get("drifted_frames"):
+        ctx.notes.append("drift (not a violation): %d frames of the %s are valid but not laid out like the as-built model (block split, header "
+                         "choices); they were judged by the property-level checks only. Example: %s"
+                         % (rj["drifted_frames"], what, json.dumps(rj["drift_examples"][:1])[:600]))
+        log("[drift] %s: %d frames" % (what, rj["drifted_frames"]))
 
 
 LENS = [0, 1, 2, 4, 5, 6, 7, 100, 1023, 1024, 1025, 1026, 4095, 16383, 16384, 16385, 65535, 131071, 131072, 131073, 262143, 262144, 262145, 393216]
@@ -97,7 +122,7 @@ def random_inputs(ctx, n):
     ctx.evaluations += rj["frames"]
     ctx.traces += rj["programs"]
     ctx.cov["random_input_programs"] = {k: rj[k] for k in ("programs", "frames", "mismatches", "block_kinds")}
-    for m in rj["first"]:
-        ctx.violation("compressor program %s frame %d: %s" % (json.dumps(m["program"]), m["frame_index"], "; ".join(m["errors"])), m, tag="encrand")
+    _drift_note(ctx, rj, "random programs")
+    _report(ctx, rj, "encrand")
     ctx.add_samples(rj["samples"][:1], 1)
     return rj
